@@ -630,7 +630,6 @@ func varargElem(sl ssa.Value, k int64) ssa.Value {
 	return nil
 }
 
-
 // sameLocalValue: a and b read the same value — the same local variable, or the same field of the same local struct
 // (also via a variable that is a plain copy of that field), every write to which comes before both reads.
 func sameLocalValue(a, b ssa.Value) bool {
